@@ -1,8 +1,8 @@
 (* Opening an index file byte-wise: Index::from_file = read_index_header + read_tree_meta + read_root +
-   validate (src/blob/index/bptree/core.rs). No length check, no hash check (findings F5, F17). *)
+   validate (src/blob/index/bptree/core.rs). The length check against leaves_offset + count * record_header_size was added by commit cb0b7cf of the code (finding F5); there is no hash check here (F17). *)
 Require Import Pearl.Base.Prelude Pearl.Base.LE Pearl.Generated.Consts Pearl.Blob.Scan Pearl.Index.Bytes.
 
-Inductive ierr := IEof | INotWritten | IVersion | IKeySize | IBlobSize | IMagic | IPanicOrEof.
+Inductive ierr := IEof | INotWritten | IVersion | IKeySize | IBlobSize | IMagic | IPanicOrEof | ICut.
 
 Record iheader := { ih_magic : N; ih_count : N; ih_rhs : N; ih_msz : N; ih_hashlen : N; ih_ver : N; ih_ksz : N; ih_bsize : N }.
 
@@ -21,6 +21,9 @@ Definition index_open (b : bytes) (K blob_size : N) : (N * N) + ierr :=
     if N.of_nat (length b) <? meta_off + 16 then inr IEof else     (* read_tree_meta *)
     let leaves_off := u64_at b (N.to_nat meta_off) in
     let tree_off := u64_at b (N.to_nat meta_off + 8) in
+    (* the leaves are the last section: the file must reach leaves_offset + records_count * record_header_size
+       (check added by commit cb0b7cf of the code; before it a file cut anywhere behind the tree meta was trusted: F5) *)
+    if N.of_nat (length b) <? leaves_off + ih_count h * ih_rhs h then inr ICut else
     if N.of_nat (length b) <? tree_off then inr IPanicOrEof else      (* read_root: file.size() - root_offset *)
     (* validate *)
     if negb (N.testbit (ih_ver h) 0) then inr INotWritten
